@@ -63,3 +63,11 @@ package provider
 //@ ensures [streaming-outcome-is-returned] imp(!p.Config.Preload && calls(p.runFullScan) == 1 && (p.Close == nil || result_of(p.Close, 0) == nil), err == result_of(p.runFullScan, 0))
 //@ ensures [preload-failure-is-reported] imp(calls(p.loadAmmo) == 1 && result_of(p.loadAmmo, 0) != nil, err != nil)
 //@ panics ensures [sink-closed-on-every-exit] closed(old(p.Sink))
+
+// An acquired ammo is the request built from the next decoded entry, with that entry's tag and a new id.
+//@ func (p *Provider) Acquire
+//@ props C07 C10
+//@ ensures [end-of-ammo-when-the-sink-is-closed] imp(!result_of(<-p.Sink, 1), result0 == nil && !result1)
+//@ ensures [build-failure-is-not-a-shot] imp(result_of(<-p.Sink, 1) && result_of(ammo.BuildRequest, 1) != nil, !result1)
+//@ at call httpProvider.NewGunAmmo assert [request-tag-and-a-new-id] arg(req) == result_of(ammo.BuildRequest, 0) && arg(tag) == result_of(ammo.Tag, 0) && arg(id) == result_of(p.NextID, 0)
+//@ at call ammo.BuildRequest assert [the-entry-received-from-the-decoder] arg(recv) == result_of(<-p.Sink, 0)
